@@ -5,7 +5,7 @@ import ast
 import z3
 
 from . import registry as R
-from .engine import (V, VNONE, Unsupported, _fresh, fresh, fresh_value, lift, py)
+from .engine import (GROUPS, V, VNONE, Unsupported, _fresh, fresh, fresh_value, lift, py)
 from .sorts import BOOL, INT, PY, REAL, STR, List
 
 
@@ -83,7 +83,10 @@ def loop_mods(eng, lc, body):
                             if t.attr in c["fields"]:
                                 mods.add(f"{cname}.{t.attr}")
                     if isinstance(t, ast.Subscript):
-                        mods.add("list")
+                        # d[k] = v : a dict when the container is a field declared with a dict sort, a list otherwise
+                        tv = t.value
+                        is_dict = isinstance(tv, ast.Attribute) and any(c["fields"].get(tv.attr, ("",))[0] == "dict" for c in R.CLASSES.values())
+                        mods.add("dict" if is_dict else "list")
             if isinstance(n, ast.Delete):
                 mods.add("list")
             if isinstance(n, ast.Call) and isinstance(n.func, ast.Attribute) and n.func.attr in (
@@ -92,7 +95,7 @@ def loop_mods(eng, lc, body):
     # a contract that names the objects ("Class.f@expr", "list@expr") replaces the syntactic whole-array entry for that base
     gran_bases = {m.split("@", 1)[0] for m in mods if "@" in m}
     for gb in list(gran_bases):
-        if gb != "list":
+        if gb not in GROUPS:
             cname, fname = gb.split(".", 1)
             for cn, c in R.CLASSES.items():
                 if fname in c["fields"]:
@@ -138,7 +141,7 @@ def cut_loop(eng, node, st, k, ctx, n, lc, guard_fn, pre_body, post_body, index_
     gran_arrays = eng.granular_arrays(st, gran)
     modset = set()
     for m in mods:
-        modset |= ({"list.len", "list.I", "list.R", "list.S", "list.nan"} if m == "list" else {m, m + "#n"})
+        modset |= (set(GROUPS[m]) if m in GROUPS else {m, m + "#n"})
     if lc.get("allocates", True):
         # objects allocated by earlier iterations: every array may have changed on fresh objects only
         for nm in list(st.heap.arrs):
